@@ -16,7 +16,7 @@ func batchInvertSpec() *edt.Spec {
 		acc1 = "havoc@L1(A<field.Element>#0)"
 		acc2 = "havoc@L2(A<field.Element>#0)"
 		scr  = "havoc@L1(M<[]field.Element>#0)"
-		in1  = "$inputs[(φL1.0 + 1)]"
+		in1  = "$inputs[φL1.0]"
 		in2  = "$inputs[φL2.0]"
 	)
 	sel := func(a, b, c string) string { return "Element.ConditionalSelect(" + a + ", " + b + ", " + c + ")" }
@@ -24,8 +24,8 @@ func batchInvertSpec() *edt.Spec {
 		Pkg: "internal/field", Func: "BatchInvert", SymLoops: true, MinPaths: 4,
 		Opaque: []string{"Element.Mul", "Element.Invert", "Element.IsZero", "Element.ConditionalSelect", "Element.Set", "Element.One"},
 		Vars: map[string]string{
-			"((φL0.0 + 1) < len(zeros(len($inputs))))": "initMore",
-			"((φL1.0 + 1) < len($inputs))":             "fwdMore",
+			"(φL0.0 < len(zeros(len($inputs))))": "initMore",
+			"(φL1.0 < len($inputs))":             "fwdMore",
 			"(φL2.0 < 0)":                              "bwdDone",
 		},
 		Classify: func(p *edt.Path, out string, e *edt.Env) string {
@@ -62,14 +62,14 @@ func batchInvertSpec() *edt.Spec {
 			}
 			switch class {
 			case "forward":
-				if !has("loop L1: A<field.Element>#0 enters as Element.One") || !has("loop L1: φL1.0 starts as -1") {
+				if !has("loop L1: A<field.Element>#0 enters as Element.One") || !has("loop L1: φL1.0 starts as 0") {
 					return "the forward pass must start with the accumulator 1 at index 0 (every input, also the first, goes through the zero-skipping step)"
 				}
 				if out != "next-iteration@L1((φL1.0 + 1))" {
 					return "the forward pass must visit every index in order"
 				}
 				return finalsAre(p, ab, map[string]string{
-					"M<[]field.Element>#0[(φL1.0 + 1)]": "Element.Set(" + acc1 + ")",
+					"M<[]field.Element>#0[φL1.0]": "Element.Set(" + acc1 + ")",
 					"A<field.Element>#0":                sel("Element.Mul("+in1+", "+acc1+")", acc1, "Element.IsZero("+in1+")"),
 				})
 			case "backward":
